@@ -18,7 +18,8 @@ import itertools
 import warnings
 import numpy as np
 import z3
-from ndvc import solve
+from ndvc import solve, xcheck
+from fractions import Fraction
 from ndvc.sym import R, C, real, lift, CTX, explore, NeedsConcrete
 from ndvc.arr import SymArr, asobj
 from .common import fd_env, ALL, mods
@@ -67,6 +68,57 @@ def functions_under_contract():
             L._add_error_to_outliers, L._get_arg_min, L._vstack, ex.Richardson.__call__, ex.Richardson._estimate_error, ex.dea3]
 
 
+def _gpoly(z):
+    # not a polynomial: truncation errors dominate rounding, so the row selected by the error estimates is determined
+    return 1 / (z + 3) + z * z / 5
+
+
+def _g_c(part):
+    def f(a, b):
+        # the element-wise function at a complex argument, in exact arithmetic
+        from ndvc.concrete import _QC
+        v = _gpoly(_QC(a, b))
+        return v.re if part == 're' else v.im
+    return f
+
+
+XINTERP = {'g': lambda t: _gpoly(Fraction(t)), 'g_cre': _g_c('re'), 'g_cim': _g_c('im'), 'nom': lambda t: 1 + Fraction(t) * Fraction(t) / 7}
+
+
+class NativeGen(object):
+    """the generator stub on floats: K steps nom(x) * 2**-i"""
+
+    def __init__(self, K):
+        self.K, self.step_ratio = K, 2.0
+
+    def step_generator_function(self, x, method='forward', n=1, order=2):
+        self.x = x
+        return self
+
+    def __call__(self):
+        return iter([(1 + np.asarray(self.x, dtype=float) ** 2 / 7) * 0.5 ** i for i in range(self.K)])
+
+
+def xtol(method, n):
+    """value, error estimate and selected step are compared where rounding cannot change which row is selected (n <= 2,
+    first-derivative complex step); for higher n the floating-point run selects by rounding error, which exact arithmetic
+    does not have (A1), and only the value is compared, to the accuracy that cancellation leaves"""
+    if n <= 2 and (method != 'complex' or n == 1):
+        return dict(rtol=1e-6, atol=1e-9, project=lambda v: (v[0], (v[1].error_estimate, v[1].final_step)))
+    return dict(rtol=1e-4, atol=1e-6, project=lambda v: v[0])
+
+
+def native_run(method, n, order, x, args=(), kwds=None, record=True):
+    def run():
+        import numdifftools as nd
+        with warnings.catch_warnings():
+            warnings.simplefilter('ignore')
+            d = nd.Derivative(lambda z, *a, **k: _gpoly(z), step=NativeGen(n + order + 4), method=method, n=n, order=order, full_output=True)
+            val, info = d(x, *args, **(kwds or {}))
+        return (val, (info.error_estimate, info.final_step)) if record else val
+    return run
+
+
 def run_once(core, mc, x, method, n, order, full=True, args=(), kwds=None, K=None):
     f = ElementwiseF(mc)
     gen = ElementwiseGen(K or (n + order + 4))
@@ -91,6 +143,9 @@ def run_deriv(method, n, order):
         if not ok:
             return info
         vS, iS = ps[0].value
+        if method != 'multicomplex':
+            xcheck.defer('engine==CPython(Derivative,scalar)', ps, {'x0': Fraction(7, 10)}, native_run(method, n, order, 0.7, record=n <= 2 and (method != 'complex' or n == 1)),
+                         interp_extra=XINTERP, **xtol(method, n))
         solve.fact('K:scalar:shape-()', np.shape(vS) == () and np.shape(iS.error_estimate) == () and np.shape(iS.final_step) == ())
         refS = [all_parts(asobj(vS).ravel()[0]), all_parts(asobj(iS.error_estimate).ravel()[0]), all_parts(asobj(iS.final_step).ravel()[0])]
         HS = ps[0].hyps
@@ -121,6 +176,13 @@ def run_deriv(method, n, order):
                 continue
             vA, iA = pa[0].value
             vB, iB = pb[0].value
+            if method != 'multicomplex':
+                xv = [Fraction(7, 10)] + [Fraction(3 * k - 4, 5) for k in range(1, nel)]
+                xnum = np.array([float(v) for v in xv])
+                xnum = xnum.reshape(shape[::-1]).T if transposed else xnum.reshape(shape)
+                xcheck.defer(tg + 'engine==CPython(Derivative)', pa, dict(zip(names, xv)),
+                             native_run(method, n, order, xnum, args=('ARG', 3), kwds=dict(key='K'), record=n <= 2 and (method != 'complex' or n == 1)),
+                             interp_extra=XINTERP, **xtol(method, n))
             solve.fact(tg + 'K:output-shape==input-shape', np.shape(vA) == shape and np.shape(iA.error_estimate) == shape and
                        np.shape(iA.final_step) == shape, note=str((np.shape(vA), np.shape(iA.error_estimate))))
             if np.shape(vA) != shape:
@@ -153,6 +215,7 @@ def run_deriv(method, n, order):
                 solve.fact(tg + 'O:position%s-depends-only-on-its-own-element' % (idx,), not foreign and own in fv, note=str(foreign[:4]))
             if shape == (3,):
                 solve.twin_fact(tg + 'value[1]-is-the-same-term-as-value[0]', all(u.eq(v) for u, v in zip(all_parts(asobj(vA)[0]), all_parts(asobj(vA)[1]))))
+    xcheck.flush()
     return info
 
 
